@@ -31,7 +31,10 @@ pub fn root_env(s: &Session) -> serde_json::Map<String, J> {
     items.sort_by(|a, b| a.0.cmp(&b.0));
     for (k, v) in items {
         if k == "inputs" { continue; }
-        m.insert(k, proj(&v, s));
+        // reading a binding goes through the heap: a value that is no longer there is an observation, not a harness failure
+        let p = std::panic::catch_unwind(std::panic::AssertUnwindSafe(|| proj(&v, s)))
+            .unwrap_or_else(|e| json!({"t":"unreadable","panic": crate::ev::panic_msg(e)}));
+        m.insert(k, p);
     }
     m
 }
